@@ -16,8 +16,9 @@ def canon_type(qt):
 
 class StdVector(Plugin):
     """std::vector<T> for scalar / pointer T: struct v_vec_<T> (models/vec_model.h)"""
-    def __init__(self, fixed=None):
+    def __init__(self, fixed=None, abstract=None):
         self.decls = {}   # C struct name -> element C type
+        self.abstract = abstract or {}   # element C type -> C predicate over `x` every stored element satisfies (size-only model)
         self.fixed = fixed or {}   # element C type -> constant capacity (bounded model B(cap), DESIGN C08)
 
     def elem_of(self, name):
@@ -36,7 +37,9 @@ class StdVector(Plugin):
         cn = 'v_vec_' + re.sub(r'\W', '_', ect.replace('struct ', '').replace('*', 'p').replace(' ', ''))
         if cn not in self.decls:
             self.decls[cn] = ect
-            if ect in self.fixed:
+            if ect in self.abstract:
+                unit.emitted_types['~' + cn] = 'V_VECABS_DECL(%s, %s, %s)' % (ect, cn, self.abstract[ect])
+            elif ect in self.fixed:
                 unit.emitted_types['~' + cn] = 'V_VECFIX_DECL(%s, %s, %d)' % (ect, cn, self.fixed[ect])
             else:
                 unit.emitted_types['~' + cn] = 'V_VEC_DECL(%s, %s)' % (ect, cn)
@@ -79,6 +82,8 @@ class StdVector(Plugin):
         a = [unit.expr(x) for x in args]
         if name in ('size', 'empty', 'data', 'resize', 'reserve', 'clear', 'pop_back', 'pop_front'):
             return '%s_%s(%s)' % (cn, name, ', '.join([recv] + a))
+        if self.decls.get(cn) in self.abstract and name in ('begin', 'cbegin', 'rend', 'crend', 'end', 'cend', 'rbegin', 'crbegin', 'data', 'at'):
+            raise Unsupported('iterator/data access on a size-only container model (in %s)' % unit.cur)
         if name in ('begin', 'cbegin', 'rend', 'crend'): return '(%s->data)' % recv
         if name in ('end', 'cend', 'rbegin', 'crbegin'): return '(%s->data + %s->size)' % (recv, recv)
         if name in ('push_back', 'emplace_back') and len(a) == 1:
@@ -132,6 +137,7 @@ class StdVector(Plugin):
         txt, is_ref = unit.decl_text(loopvar, loopvar['name'])
         unit.local_names[loopvar['id']] = (loopvar['name'], is_ref)
         first = '%s = %s__r%d->data[__i%d];' % (txt, '&' if is_ref else '', ln, ln)
+        if self.decls.get(cn) in self.abstract: first = '%s = %s%s_index(__r%d, __i%d);' % (txt, '' if is_ref else '*', cn, ln, ln)
         unit.loop_body(body, ind + 1, ln, first_stmt=first)
         unit.ghost('after_loop:%d' % ln, p + '  ')
         unit.w(p + '}')
@@ -399,14 +405,123 @@ class StringStreamSink(Plugin):
         if re.search(r'basic_ostream<char', name): return 'struct v_sstream'
         return None
     def is_model_type(self, ct): return ct.replace('const ', '').strip() == 'struct v_sstream'
+    def global_var(self, name): return 'v_cerr' if name in ('cerr', 'cout', 'clog') else None
     def local_object(self, unit, v, ct, name, ks, p):
         unit.w(p + 'struct v_sstream %s; %s.n = 0;' % (name, name))
     def operator_call(self, unit, n, rd, args):
         if rd.get('name') == 'operator<<' and args and (self.is_ss(args[0]) or 'basic_ostream' in (args[0].get('type', {}).get('desugaredQualType') or args[0].get('type', {}).get('qualType', ''))):
             # evaluate the right operand for its side effects / checks, append nothing observable
+            a1 = unit.strip_tmp(args[1])
+            while a1['kind'] == 'ImplicitCastExpr' and unit.kids(a1): a1 = unit.kids(a1)[0]
+            if a1['kind'] == 'DeclRefExpr' and (a1.get('referencedDecl') or {}).get('name') in ('endl', 'flush', 'hex', 'dec'):
+                return '(*v_ss_put(%s, 0))' % unit.addr_of(args[0])
             return '(*v_ss_put(%s, (%s, 0)))' % (unit.addr_of(args[0]), unit.expr(args[1]) if not unit.is_record_type(args[1]) else '(void)%s' % unit.addr_of(args[1]))
         return None
     def member_call(self, unit, n, me, base, args):
         if self.is_ss(base) and me['name'] == 'str' and not args:
             return 'v_str_any()'
         return None
+
+
+class Sync(Plugin):
+    """std::mutex, recursive_mutex, lock_guard, unique_lock, condition_variable, thread (models/sync_model.h).
+    cv.wait(lk) -> stub v_cv_wait(cv, lk) (spec gives the contract: what other threads may have done to the guarded state);
+    cv.wait(lk, pred) -> helper `while (!pred()) v_cv_wait(cv, lk);` with the lifted lambda; thread::join -> stub v_thread_join."""
+    T = {'std::mutex': 'struct v_mutex', 'std::recursive_mutex': 'struct v_rmutex', 'std::condition_variable': 'struct v_cv', 'std::thread': 'struct v_thread'}
+    def _norm(self, name):
+        return re.sub(r'\s+', '', name.replace('const ', ''))
+    def type_for(self, name, unit):
+        n = self._norm(name)
+        if n in self.T: return self.T[n]
+        if n in ('mutex', 'recursive_mutex', 'condition_variable', 'thread'): return self.T['std::' + n]
+        if re.match(r'^(std::)?unique_lock<(std::)?mutex>$', n): return 'struct v_ulock'
+        if re.match(r'^(std::)?lock_guard<(std::)?(recursive_)?mutex>$', n): return 'struct v_lguard'
+        return None
+    def is_model_type(self, ct):
+        return ct.replace('const ', '').strip() in ('struct v_mutex', 'struct v_rmutex', 'struct v_cv', 'struct v_thread', 'struct v_ulock', 'struct v_lguard')
+    def _ct(self, unit, node):
+        t = node.get('type', {})
+        for qt in (t.get('desugaredQualType'), t.get('qualType')):
+            if qt:
+                r = self.type_for(re.sub(r'\s*[\*&]$', '', qt.strip()), unit)
+                if r: return r
+        return None
+    def local_object(self, unit, v, ct, name, ks, p):
+        ct = ct.replace('const ', '').strip()
+        if ct in ('struct v_lguard', 'struct v_ulock'):
+            ce = unit.strip_tmp(ks[0]) if ks else None
+            if ce is None or ce['kind'] != 'CXXConstructExpr' or len(unit.kids(ce)) != 1: raise Unsupported('lock object without exactly one mutex argument (in %s)' % unit.cur)
+            marg = unit.kids(ce)[0]
+            mt = self._ct(unit, marg); m = unit.addr_of(marg)
+            if ct == 'struct v_lguard':
+                fn = 'v_rmutex' if mt == 'struct v_rmutex' else 'v_mutex'
+                tmp = unit.new_tmp('__lg')
+                unit.w(p + '%s *%s = %s; %s_lock(%s);' % (mt, tmp, m, fn, tmp))
+                unit.scopes[-1]['vars'].append('%s_unlock(%s);' % (fn, tmp))
+            else:
+                unit.w(p + 'struct v_ulock %s; %s.m = %s; %s.owns = 0; v_ulock_lock(&%s);' % (name, name, m, name, name))
+                unit.scopes[-1]['vars'].append('v_ulock_release(&%s);' % name)
+            return
+        if ct == 'struct v_thread':
+            unit.w(p + 'struct v_thread %s;' % name)
+            if ks: unit.w(p + '%s = %s;' % (name, unit.expr(ks[0])))
+            else: unit.w(p + 'v_thread_init(&%s);' % name)
+            return
+        raise Unsupported('local %s (in %s)' % (ct, unit.cur))
+    def field_init(self, unit, f, ct, target, e):
+        ct = ct.replace('const ', '').strip()
+        if ct in ('struct v_mutex', 'struct v_rmutex', 'struct v_thread'): return ['%s_init(&%s);' % (ct[len('struct '):], target)]
+        if ct == 'struct v_cv': return []
+        raise Unsupported('field of ' + ct)
+    def construct_expr(self, unit, n):
+        if self._ct(unit, n) == 'struct v_thread':
+            ks = unit.kids(n)
+            if not ks: return '((struct v_thread){0})'
+            inner = unit.strip_tmp(ks[0])
+            if self._ct(unit, inner) == 'struct v_thread': return unit.expr(inner)     # move
+            unit.dropped.append('thread entry expression in %s (the new thread runs outside this function)' % unit.cur)
+            return 'v_thread_spawn()'
+        return None
+    def member_call(self, unit, n, me, base, args):
+        ct = self._ct(unit, base)
+        if ct is None: return None
+        b = unit.expr(base); recv = b if me.get('isArrow') else unit.addr_text(b)
+        name = me['name']
+        if ct in ('struct v_mutex', 'struct v_rmutex'):
+            if name in ('lock', 'unlock') or (name == 'try_lock' and ct == 'struct v_mutex'): return '%s_%s(%s)' % (ct[len('struct '):], name, recv)
+        if ct == 'struct v_ulock' and name in ('lock', 'unlock'): return 'v_ulock_%s(%s)' % (name, recv)
+        if ct == 'struct v_thread':
+            if name == 'join':
+                unit.count_call('v_thread_join'); return 'v_thread_join(%s)' % recv
+            if name == 'joinable': return 'v_thread_joinable(%s)' % recv
+            if name == 'swap': return 'v_thread_swap(%s, %s)' % (recv, unit.addr_of(args[0]))
+        if ct == 'struct v_cv':
+            if name in ('notify_all', 'notify_one'): return 'v_cv_notify(%s)' % recv
+            if name == 'wait' and len(args) == 1:
+                unit.count_call('v_cv_wait'); return 'v_cv_wait(%s, %s)' % (recv, unit.addr_of(args[0]))
+            if name in ('wait', 'wait_for') and len(args) == (2 if name == 'wait' else 3):
+                lam, largs, rt = unit.lift_lambda(args[-1])
+                if name == 'wait_for': unit.expr(args[1])     # duration evaluated for its checks; its value only bounds the wait
+                proto_l = unit.emitted_protos[lam]
+                ps = proto_l[proto_l.index('(') + 1:proto_l.rindex(')')]
+                ps = '' if ps == 'void' else ps
+                an = ', '.join(x.strip().rsplit(' ', 1)[-1].lstrip('*') for x in ps.split(',')) if ps else ''
+                h = lam.replace('__lambda', '__cvwait')
+                proto = 'static _Bool %s(struct v_cv *cv, struct v_ulock *lk%s)' % (h, (', ' + ps) if ps else '')
+                unit.count_call('v_cv_wait'); unit.count_call('v_cv_wait_timed')
+                if name == 'wait':
+                    body = '  while (!%s(%s))\n%s  {\n    v_cv_wait(cv, lk);\n  }\n  return 1;\n' % (lam, an, self._loopc(unit, h))
+                else:
+                    body = '  while (!%s(%s))\n%s  {\n    if (v_cv_wait_timed(cv, lk)) return %s(%s);\n  }\n  return 1;\n' % (lam, an, self._loopc(unit, h), lam, an)
+                g = unit.spec.get(('ghost', h, 'entry'))
+                if g:
+                    unit.used_keys.add(('ghost', h, 'entry')); body = '  ' + g + '\n' + body
+                unit.add_helper(h, proto, proto + '\n{\n' + body + '}\n')
+                return '%s(%s)' % (h, ', '.join([recv, unit.addr_of(args[0])] + largs))
+        raise Unsupported('%s::%s (in %s)' % (ct, name, unit.cur))
+    def _loopc(self, unit, h):
+        c = unit.spec.get(('loop', h, 1))
+        if c:
+            unit.used_keys.add(('loop', h, 1))
+            return ''.join('  ' + l + '\n' for l in c.strip('\n').split('\n'))
+        return ''
